@@ -19,6 +19,9 @@ FIRST = {
     # round 5 (12 of 20 missed)
     "C01/5": "missed", "C02/5": "missed", "C03/6": "missed", "C04/5": "missed", "C05/5": "missed", "C06/5": "missed", "C09/5": "missed",
     "C12/5": "missed", "C13/5": "missed", "C14/6": "missed", "C15/5": "missed", "C20/5": "missed",
+    # round 6 (11 of 20 missed)
+    "C02/6": "missed", "C03/7": "missed", "C06/6": "missed", "C09/6": "missed", "C11/6": "missed", "C12/6": "missed", "C13/6": "missed",
+    "C15/6": "missed", "C16/6": "missed", "C18/6": "missed", "C20/6": "missed",
 }
 
 
